@@ -472,6 +472,24 @@ def run_mask(spec, res):
         if p:
             badvars.append([k, vs.dtype, vs.masked_type])
         problems += p
+    if via == 'mask' and not problems:
+        # the same call on the same source once more: it must mask exactly
+        # the same cells (the first call must not have left anything behind
+        # in the source)
+        try:
+            out2 = f.mask(coords=spec['coords'], **kw)
+            res.hook('mask.return')
+            for k, vs in before.vars.items():
+                if k in skip or (k in coords and not spec['coords']) or \
+                        k not in out2.variables:
+                    continue
+                ed, em = exp[k]
+                p2 = snapshot.check_var(snapshot.snap_var(out2.variables[k]),
+                                        k, dims=vs.dims, data=vs.data,
+                                        mask=em)
+                problems += ['second identical call: ' + x for x in p2]
+        except Exception as e:
+            problems.append('second identical call raised %r' % (e,))
     res.ev(digest(spec), judged > 0,
            ['mask:' + '+'.join(sorted(spec['kw'])), 'via:' + via])
     if problems:
